@@ -92,10 +92,22 @@ def table_to_obs(pe, table, forms=None):
     samples, idls = [], []
     for n in names:
         cfgs = sorted(table[n])
-        samples.append(np.array([table[n][c] for c in cfgs], dtype=float))
+        x = np.array([table[n][c] for c in cfgs], dtype=float)
+        # the representation of the input must not matter: vary it deterministically with the content
+        # (contiguous array, strided view, reversed-twice view, plain list)
+        sel = int(abs(x[0]) * 1e6 + len(x)) % 7 if len(x) else 0
+        if sel == 1:
+            big = np.zeros(2 * len(x))
+            big[::2] = x
+            x = big[::2]
+        elif sel == 2:
+            x = x[::-1].copy()[::-1]
+        elif sel == 3:
+            x = [float(v) for v in x]
+        samples.append(x)
         f = (forms or {}).get(n, 'list')
         if f == 'ndarray':
-            idls.append(np.array(cfgs))
+            idls.append(np.array(cfgs, dtype=[np.int64, np.int32, np.int64][sel % 3]))
         elif f == 'native' and len(cfgs) > 1 and all(b - a == cfgs[1] - cfgs[0] for a, b in zip(cfgs, cfgs[1:])):
             idls.append(range(cfgs[0], cfgs[-1] + 1, cfgs[1] - cfgs[0]))
         else:
